@@ -713,6 +713,11 @@ ALPHABET = {
                      call("solve", A=S("D"), b=B, alg={"algobj": "g_gm"})],
     "algobj_lanczos": [PRE["P"], {"op": "mkalg", "name": "g_lz", "cls": "Lanczos", "kw": {"max_iters": 3, "start_vector": V0}},
                        call("eig", A=S("P"), k=2, which="LM", alg={"algobj": "g_lz"})],
+    "flatten_inv_cg": [PRE["P"], call("inv", out="R_invcg", A=S("P"), alg="CG", akw={"max_iters": 5}),
+                       call("flatten", A=S("R_invcg"))],
+    "ann_used_inv": [PRE["P"], call("inv", out="R_invcg", A=S("P"), alg="CG", akw={"max_iters": 5}),
+                     call("matvec", A=S("R_invcg"), x=B),
+                     mk("a_psd_inv", {"k": "ann", "name": "PSD", "of": {"k": "ref", "slot": "R_invcg"}})],
     "eig": [PRE["P"], call("eig", A=S("P"), k=2, which="LM")],
     "eig_lanczos": [PRE["P"], call("eig", A=S("P"), k=2, which="LM", alg="Lanczos", akw={"max_iters": 3}, v0=V0)],
     "svd": [PRE["D"], call("svd", A=S("D"), k=2, which="LM")],
@@ -771,7 +776,7 @@ ALPHABET3 = ["mk_dense", "mk_identity", "mk_generic", "mk_probe", "sum_b", "sum_
              "ann_psd", "ann_psd_over_sa", "to_f4", "matvec", "rmatvec_g", "solve_chol", "solve_cg", "solve_cg_raise",
              "use_inv_cg", "use_inv_cg_X0", "use_sqrt_B", "use_sqrt_X0", "matvec_sum_B", "matvec_sum_X0", "eig_lanczos",
              "cg_reenter", "flatten_sum", "hutch", "import_precond", "algobj_cg_probe", "algobj_cg_block_raise",
-             "algobj_cg_dense_of_inv_raise", "rsolve_chol", "rmv_inv_tri", "algobj_hutch_kron"]
+             "algobj_cg_dense_of_inv_raise", "rsolve_chol", "rmv_inv_tri", "algobj_hutch_kron", "flatten_inv_cg", "ann_used_inv"]
 
 
 def history(letters):
